@@ -1639,6 +1639,7 @@ def render(e, transparent=True, depth=0):
     """Canonical, line-number-free text of an expression (used in keys and reports)."""
     if depth > 25:
         return '…'
+    is_place = e[0] == 'ref'            # `&s.f` / `&mut s.f` names the place, whatever was first stored there
     e = strip(e, transparent)
     k = e[0]
     r = lambda x: render(x, transparent, depth + 1)
@@ -1654,7 +1655,7 @@ def render(e, transparent=True, depth=0):
         return '$' + str(e[2])
     if k == 'field':
         b0 = strip(e[1], transparent)
-        if b0[0] == 'aggr' and len(b0) > 3 and b0[3] and len(b0[3]) == len(b0[2]) and e[2] in b0[3]:
+        if not is_place and b0[0] == 'aggr' and len(b0) > 3 and b0[3] and len(b0[3]) == len(b0[2]) and e[2] in b0[3]:
             return r(b0[2][list(b0[3]).index(e[2])])          # a component of a struct literal built earlier: the component itself
         return '%s.%s' % (r(e[1]), e[2])
     if k == 'downcast':
